@@ -30,6 +30,8 @@ type Oblig struct {
 	Pos    string
 	Props  []string
 	Canary bool // must-fail vacuity canary
+	Tag    string // clause family (label) the obligation belongs to: hypotheses of other families may be hidden
+	Uses   []string // families that stay visible in the focused query
 	Cover  bool // reachability check: must be sat
 }
 
@@ -44,6 +46,7 @@ type Stmt struct {
 	Set    map[string]bool
 	Note   string
 	FrameVar string // for frame obligations: the heap variable concerned
+	Tag    string // assumptions: clause family (label) they come from
 }
 
 type Block struct {
